@@ -577,6 +577,11 @@ func writeEvidence(prop, tier string, seed int, results []*FuncResult, claims *c
 	}
 	ev := evidence{PropertyID: prop, Tier: tier, Seed: seed, Level: "proof", Coverage: cov, WallS: round3(wall), Violations: violations}
 	ev.Assumptions = append(ev.Assumptions, tb...)
+	// clauses of the property no contract in reach decides, and what is assumed (committed file,
+	// generated from the same table as MANIFEST.json)
+	if data, err := os.ReadFile(filepath.Join(verifDir, "not_decided.json")); err == nil {
+		json.Unmarshal(data, &notDecided)
+	}
 	ev.Assumptions = append(ev.Assumptions, notDecided[prop]...)
 	data, _ := json.MarshalIndent(ev, "", " ")
 	os.MkdirAll(filepath.Join(verifDir, "evidence"), 0o755)
